@@ -1234,14 +1234,6 @@ func c19RunFieldCase(p *vreport.Part, c c19FieldCase, dir string, blame func(c c
 	return o
 }
 
-func c19StripTime(l string) string {
-	// "2026-09-24 04:52:49,263 [FATAL] …" -> "[FATAL] …"
-	if i := strings.Index(l, "["); i > 0 && i < 30 {
-		return l[i:]
-	}
-	return l
-}
-
 func c19DiffKey(what string, d c19Diff) string {
 	pat := c19Pattern(d.Path)
 	if strings.HasPrefix(pat, "dirs.") {
